@@ -85,6 +85,10 @@ def build(node, m):
         return vlp.Pseries(node[1], node[2], node[3])
     if k == 'geom':
         return vlp.Pgeom(node[1], node[2], node[3])
+    if k == 'series-pat':
+        return vlp.Pseries(node[1], B(node[2]), node[3])
+    if k == 'geom-pat':
+        return vlp.Pgeom(node[1], B(node[2]), node[3])
     if k == 'collect':
         return flp.Pcollect(FUNCS[node[1]], B(node[2]))
     if k == 'select':
@@ -232,6 +236,17 @@ def den(node, bi):
         for _ in count(node[3]):
             yield cur
             cur = cur * node[2]
+    elif k in ('series-pat', 'geom-pat'):
+        # step / grow given as a pattern: one step is drawn per value; the series ends when the step stream ends
+        cur = node[1]
+        steps = as_stream(node[2], bi)
+        for _ in count(node[3]):
+            try:
+                st = next(steps)
+            except StopIteration:
+                return
+            yield cur
+            cur = cur + st if k == 'series-pat' else cur * st
     elif k == 'collect':
         for v in as_stream(node[2], bi):
             yield FUNCS[node[1]](v)
@@ -321,7 +336,7 @@ def inner_nodes(env, depth, lo=0):
 
 TEMPLATES = ['seq', 'ser', 'n', 'len', 'drop', 'stutter', 'clump', 'flatten', 'diff', 'const', 'switch', 'switch1',
              'place', 'tuple', 'slide', 'series', 'geom', 'collect', 'select', 'reject', 'if', 'wrap', 'unop', 'binop',
-             'rbinop', 'narop', 'seq-narop', 'seq-offset', 'n-inf', 'ser-inf']
+             'rbinop', 'narop', 'seq-narop', 'seq-offset', 'n-inf', 'ser-inf', 'series-pat', 'geom-pat']
 
 
 def make(template, env, ctx, depth):
@@ -369,6 +384,10 @@ def make(template, env, ctx, depth):
         return ('series', env.val(), env.val(), env.cnt(0, 4))
     if template == 'geom':
         return ('geom', env.val(), env.val(), env.cnt(0, 4))
+    if template == 'series-pat':
+        return ('series-pat', env.val(), pick(), env.cnt(0, 4))
+    if template == 'geom-pat':
+        return ('geom-pat', env.val(), pick(), env.cnt(0, 4))
     if template == 'collect':
         return ('collect', ['double1', 'neg'][ctx.choose('f', 2)], ('seq', [v(), pick()], env.cnt(0, 2), 0))
     if template in ('select', 'reject'):
@@ -472,16 +491,23 @@ def seeded_scenario(ctx, which):
              lambda: lsp.Pshuffle([1, 2, 3, 4], 2), lambda: vlp.Pbrown(0.0, 1.0, 0.125, 6)][which]
     pat = flp.Pseed(seed, inner())
     # Pseed restarts its pattern with the same seed for ever: read a fixed number of values
-    a = pat.__stream__()
-    first = [a.next(), a.next()]
-    b = pat.__stream__()
-    other = flp.Pseed(99, inner()).__stream__()
-    bs = []
-    for _ in range(9):
-        bs.append(b.next())
-        other.next()
-    for _ in range(7):
-        first.append(a.next())
+    try:
+        a = pat.__stream__()
+        first = [a.next(), a.next()]
+        b = pat.__stream__()
+        other = flp.Pseed(99, inner()).__stream__()
+        bs = []
+        for _ in range(9):
+            bs.append(b.next())
+            other.next()
+        for _ in range(7):
+            first.append(a.next())
+    except (PathAbort, Inconclusive, Violation):
+        raise
+    except Exception as e:
+        name = ['Pwhite', 'Prand', 'Pxrand', 'Pshuffle', 'Pbrown'][which]
+        raise Violation(f'streaming Pseed({seed}, {name}(...)) raises {type(e).__name__}: {e}', None,
+                        {'key': 'c13:seeded-raises', 'replay': rec})
     if first != bs or len(bs) == 0:
         raise Violation(f'two streams of one seeded pattern differ: {first} vs {bs}', None,
                         {'key': 'c13:seeded', 'replay': rec})
